@@ -5,6 +5,8 @@ also when several embedded fragments (or the struct itself and a fragment) carry
 loses none; the round-trip equalities themselves are decided on the compiled code by the probe.
 -/
 import Genq.Model.Types
+import Genq.Model.Codec
+import Genq.Proofs.CodecRT
 namespace Genq.Types
 
 section Lemmas
@@ -93,3 +95,61 @@ theorem C06_json_name_is_the_key :
       = [("Id", "id"), ("Name", "name")] := by decide
 
 end Genq.Types
+
+/-! ### the round trip, on the model of the generated (un)marshalers (Model/Codec.lean) -/
+
+namespace Genq.Codec
+open Genq.Types (J)
+
+/-- **C06_roundtrip_model** — for every response type tree without fold twins and every value `v` of the shape
+    decoding produces (canonical leaves; one JSON per response key across a struct and its embedded fragments;
+    an implementation's own `__typename` field equal to the name it was dispatched on), unmarshaling what
+    MarshalJSON wrote yields `v` again: `dec t (enc t v) = ok v`.  Any depth of lists, pointers, embedded
+    fragments and abstract types. -/
+theorem C06_roundtrip_model (t : Ty) (v : Val) (h : WF t v) (hf : noFoldTwins t = true) : dec t (enc t v) = .ok v :=
+  rt t v h hf
+
+/-- the same for a field handled through json.RawMessage (abstract or custom-marshaled, at any list depth) -/
+theorem C06_roundtrip_special_model (t : Ty) (v : Val) (h : WFSpecial t v) (hf : noFoldTwins t = true) :
+    decSpecial t (encSpecial t v) = .ok v :=
+  rtSpecial t v h hf
+
+/-- what the marshaled object guarantees each field: it reads back exactly the JSON written for its key -/
+theorem C06_marshaled_object_covers_every_field (fs : Flds) (vs : List Val)
+    (hf : noFoldTwinsIn ("__typename" :: closureNames fs) = true) (hc : Coherent (encAll fs vs 0)) :
+    ∀ e ∈ encAll fs vs 0, lookup (winners (encAll fs vs 0)) e.2.1 = some e.2.2 :=
+  structCovers fs vs hf hc
+
+section Witness
+/-- `user { pet { name } ...A }` with `fragment A on User { pet { age } }` -/
+def tPetName : Ty := .struct (.cons "name" false (.leaf .str) .nil)
+def tPetAge : Ty := .struct (.cons "age" false (.leaf .int) .nil)
+def tUserK : Ty := .struct (.cons "pet" false tPetName (.cons "A" true (.struct (.cons "pet" false tPetAge .nil)) .nil))
+def respK : J := .obj [("pet", .obj [("name", .str "rex"), ("age", .num "3")])]
+
+/-- **C06_roundtrip_needs_coherence_witness** (known finding F-06k, replayed on the compiled code by
+    corpus/C06/f06k-…): one response key with different sub-selections in the struct and in an embedded fragment.
+    Decoding fills both Go fields; marshaling writes only the struct's own (`age` is lost); decoding that again
+    leaves the fragment's copy without its `age`.  So `Coherent` cannot be dropped from `C06_roundtrip_model`. -/
+theorem C06_roundtrip_needs_coherence_witness :
+    dec tUserK respK = .ok (.struct [.struct [.leaf (.str "rex")], .struct [.struct [.leaf (.num "3")]]]) ∧
+    enc tUserK (.struct [.struct [.leaf (.str "rex")], .struct [.struct [.leaf (.num "3")]]]) = .obj [("pet", .obj [("name", .str "rex")])] ∧
+    dec tUserK (.obj [("pet", .obj [("name", .str "rex")])]) = .ok (.struct [.struct [.leaf (.str "rex")], .struct [.struct [.leaf (.num "0")]]]) :=
+  ⟨rfl, rfl, rfl⟩
+
+/-- non-vacuity of `C06_roundtrip_model`: a struct with an embedded fragment sharing a key, a list of an abstract
+    type and a pointer — the decoded value is well-formed and the type has no fold twins -/
+def tDog : Ty := .struct (.cons "__typename" false (.leaf .str) (.cons "barks" false (.leaf .bool) .nil))
+def tCat : Ty := .struct (.cons "__typename" false (.leaf .str) (.cons "lives" false (.leaf .int) .nil))
+def tEx : Ty := .struct (.cons "id" false (.leaf .str) (.cons "F" true (.struct (.cons "id" false (.leaf .str) (.cons "nick" false (.ptr (.leaf .str)) .nil)))
+  (.cons "pets" false (.slice (.iface (.cons "Dog" tDog (.cons "Cat" tCat .nil)))) .nil)))
+def vEx : Val := .struct [.leaf (.str "u1"), .struct [.leaf (.str "u1"), .ptr (.leaf (.str "n"))],
+  .slice [.iface "Dog" (.struct [.leaf (.str "Dog"), .leaf (.bool true)]), .nilIface]]
+
+example : noFoldTwins tEx = true := by decide
+example : dec tEx (enc tEx vEx) = .ok vEx := rfl
+example : dec tEx (.obj [("id", .str "u1"), ("nick", .str "n"), ("pets", .arr [.obj [("__typename", .str "Dog"), ("barks", .bool true)], .null])]) = .ok vEx := rfl
+end Witness
+
+end Genq.Codec
+
